@@ -1,10 +1,8 @@
 """C16: truncated files never crash the loader."""
-from props import fblock
+from props import fblock, fmfile
 ID = "C16"
 LEVEL = "model_checking"
-HARNESS = [fblock.GEN]
-MODULE = "fblock"
-ENTRIES = fblock.ENTRIES
+MODULES = fmfile.modules()
 prepare = fblock.prepare
 BOUNDS = {
     "quick": {"block_types": "all registered (from Factory.cpp)", "version": "symbolic (file,user,stream) under the loader's acceptance predicate", "count_cap_B": 1, "input_bytes_L": 256, "budget_s_per_type": 8},
@@ -22,8 +20,20 @@ def owns_violation(v):
 
 
 def jobs(tier, seed):
-    return fblock.jobs_for("h_trunc", tier, seed, extra=dict(huge_alloc_is_violation=True, throw_is_violation=True))
+    J = fblock.jobs_for("h_trunc", tier, seed, extra=dict(huge_alloc_is_violation=True, throw_is_violation=True))
+    for j in J:
+        j["mod"] = "fblock"
+    if tier == "quick":
+        for ver, feat in ((fmfile.SSE, fmfile.SKIN), (fmfile.OB, fmfile.SKIN | fmfile.COLL), (fmfile.FO4, fmfile.EXTRA), (fmfile.SK, fmfile.SHAPE2)):
+            J.append(dict(entry="h_file_trunc", args=[ver, feat, 1], budget=110, mod="fmfile", huge_alloc_is_violation=True, throw_is_violation=True))
+    else:
+        J += fmfile.jobs("h_file_trunc", tier, extra_args=[1], budget=1200, huge_alloc_is_violation=True, throw_is_violation=True)
+    return J
 
 
 def signature(job, v):
+    if job.get("mod") == "fmfile":
+        top = next((f for f in v["stack"] if "nifly" in f), "")
+        rc = v.get("user", {}).get("rc")
+        return "%s:%s:%s%s" % (job["entry"], v["aid"], top[:50], "" if rc in (None, 0) else ":loadfailed")
     return "%s:%s:%s" % (job["entry"], fblock.type_of(job), v["aid"])
